@@ -30,7 +30,7 @@ type nbProg struct {
 	N       int   // operator count after the rescale (2..3)
 	Keys    []int // subject keys written before the rescale
 	After   []int // subject keys rewritten after the rescale (drives compaction away from shared tables)
-	Plan    []int // per NeedsTable call: 0 truthful, 1 error, 2 unreachable, 3 the call's context was cancelled, 4 the neighbour answers with a Canceled status (it is shutting down), 5 deadline exceeded, 6 Unavailable status
+	Plan    []int // per NeedsTable call: 0 truthful, 1 error, 2 unreachable, 3 the call's context was cancelled, 4 the neighbour answers with a Canceled status (it is shutting down), 5 deadline exceeded, 6 Unavailable status, 7 the neighbour's process is up but its deployment has not opened its database yet
 	MemTab  int
 	Retains int // how many extra checkpoint+retention rounds after the rescale
 }
@@ -41,7 +41,7 @@ func genNB(rt *rapid.T) nbProg {
 		N:       rapid.IntRange(2, 3).Draw(rt, "n"),
 		Keys:    rapid.SliceOfN(rapid.IntRange(0, 15), 6, 30).Draw(rt, "keys"),
 		After:   rapid.SliceOfN(rapid.IntRange(0, 15), 4, 40).Draw(rt, "after"),
-		Plan:    rapid.SliceOfN(rapid.SampledFrom([]int{0, 0, 1, 1, 2, 3, 4, 5, 6}), 1, 12).Draw(rt, "plan"),
+		Plan:    rapid.SliceOfN(rapid.SampledFrom([]int{0, 0, 1, 1, 2, 3, 4, 5, 6, 7}), 1, 12).Draw(rt, "plan"),
 		MemTab:  rapid.SampledFrom([]int{96, 160, 256}).Draw(rt, "memtable"),
 		Retains: rapid.IntRange(1, 3).Draw(rt, "retains"),
 	}
@@ -93,6 +93,7 @@ func execNB(p nbProg, c *hx.Case) error {
 	w.H.Reset(ack.Snap)
 	// fault plan for NeedsTable
 	calls, faulty, truthfulNeeded := 0, 0, 0
+	var undeployed *opx.Op
 	w.NeedsFn = func(from, to, uri string) (bool, error, bool) {
 		i := calls
 		calls++
@@ -115,6 +116,28 @@ func execNB(p nbProg, c *hx.Case) error {
 		case 6:
 			faulty++
 			return false, connect.NewError(connect.CodeUnavailable, fmt.Errorf("operator %s is not ready", to)), true
+		case 7:
+			// The job deploys all operators at once: the question may reach a
+			// neighbour whose HandleDeploy has not opened its database yet. Whatever
+			// that operator does with it (the engine's handler fails, which the asker
+			// sees as an error), the asker must not take it for "not needed".
+			faulty++
+			if undeployed == nil {
+				u, uerr := w.StartOp("undeployed-neighbour", batching.EventBatcherParams{MaxSize: 1})
+				if uerr != nil {
+					return false, uerr, true
+				}
+				undeployed = u
+			}
+			ans, aerr := func() (ans bool, err error) {
+				defer func() {
+					if r := recover(); r != nil {
+						err = fmt.Errorf("the handler of %s failed: %v", to, r)
+					}
+				}()
+				return undeployed.O.HandleNeedsTable(uri), nil
+			}()
+			return ans, aerr, true
 		}
 		return false, nil, false
 	}
@@ -229,5 +252,5 @@ func execNB(p nbProg, c *hx.Case) error {
 }
 
 func TestPropNeighbours(t *testing.T) {
-	hx.Run(t, hx.Spec{Prop: "C09", Persist: true, Rule: "one real operator writes state over 2..16 key groups with a 96..256 B memtable (tables flushed and compacted), checkpoints, and is rescaled through the real Assembly.Deploy into 2..3 operators that share its tables; they rewrite keys (their compactions drop the shared tables from their own level lists), checkpoint 1..3 more times, are told to retain only the newest checkpoint, and garbage collection is forced; neighbours answer NeedsTable per a drawn plan (truthful / plain error / unreachable / cancelled context / Canceled status / deadline exceeded / Unavailable status); after every round every table referenced by a checkpoint that some operator retains must exist, and finally every key must be readable at its owner with the right state; non-trivial = >=1 NeedsTable call and >=1 faulty answer"}, genNB, execNB)
+	hx.Run(t, hx.Spec{Prop: "C09", Persist: true, Rule: "one real operator writes state over 2..16 key groups with a 96..256 B memtable (tables flushed and compacted), checkpoints, and is rescaled through the real Assembly.Deploy into 2..3 operators that share its tables; they rewrite keys (their compactions drop the shared tables from their own level lists), checkpoint 1..3 more times, are told to retain only the newest checkpoint, and garbage collection is forced; neighbours answer NeedsTable per a drawn plan (truthful / plain error / unreachable / cancelled context / Canceled status / deadline exceeded / Unavailable status / asked before its deployment has opened its database); after every round every table referenced by a checkpoint that some operator retains must exist, and finally every key must be readable at its owner with the right state; non-trivial = >=1 NeedsTable call and >=1 faulty answer"}, genNB, execNB)
 }
